@@ -134,6 +134,11 @@ pub fn well_known_script() -> BS<Vec<u8>> {
         vec![0x6a],
         vec![0x6a, 0x00],
         vec![0x6a, 0x6a],
+        // scripts made of ignored no-ops only (fork coins: an empty token list)
+        vec![0x61],
+        vec![0xb1],
+        vec![0x61, 0xb1],
+        vec![0xb0, 0xb9, 0x61, 0xb2, 0xb3],
         p2pk,
         with20(&[0x76, 0xa9, 0x14], 0, &[0x88, 0xac]),
         with20(&[0xa9, 0x14], 0, &[0x87]),
